@@ -9,6 +9,7 @@ import (
 	"path/filepath"
 	"strings"
 
+	"github.com/dsnet/compress/brotli"
 	"github.com/dsnet/compress/xflate/verifharness/ref"
 )
 
@@ -194,7 +195,7 @@ func libEncode(rng *rand.Rand, data []byte, q, lgwin, mode int) []byte {
 			op = 1
 		}
 		ops = append(ops, ref.BrOp{Data: p, Op: op})
-		if rng.Intn(10) == 0 {
+		if rng.Intn(10) == 0 && os.Getenv("BRTEST_NOMETA") == "" {
 			ops = append(ops, ref.BrOp{Data: genRandom(rng, rng.Intn(16)), Op: 3})
 		}
 	}
@@ -345,6 +346,22 @@ func genCases(rng *rand.Rand, scale int, want map[string]bool, add func(kind str
 	}
 	if want["craft"] {
 		genCrafted(rng, scale, add)
+	}
+	if want["xforms"] {
+		special := xformsCheck()
+		rng.Shuffle(len(special), func(a, b int) { special[a], special[b] = special[b], special[a] })
+		for i := 0; i < len(special); i += 200 {
+			add("xforms", craftDictRefs(rng, special[i:min(i+200, len(special))]))
+		}
+		// and a sample over all (word, transform) pairs
+		for i := 0; i < 600*scale; i++ {
+			var refs []dref
+			for k := 0; k < 200; k++ {
+				wl := 4 + rng.Intn(21)
+				refs = append(refs, dref{wl, rng.Intn(1 << uint(brotli.VerifDictBitSizes()[wl])), rng.Intn(121)})
+			}
+			add("xforms", craftDictRefs(rng, refs))
+		}
 	}
 	if want["testdata"] {
 		files, _ := filepath.Glob("/repo/brotli/testdata/*.br")
